@@ -3,6 +3,10 @@
 import json, os
 V = os.path.dirname(os.path.abspath(__file__))
 CHECKS = {
+ "C03": dict(
+  text="Randomised search (rapid) over server programs: specs with parameters of every location, type, collectionFormat and flag combination (one catalogue-drawn focus parameter per operation) are generated with the swagger binary built from the tree, compiled together with a reflection harness that installs recording handlers, and driven in-process with valid requests plus every single deviation of every parameter (dropped, emptied, boundary-mutated, malformed, repeated, other header case, body mutated/malformed/absent/null, wrong content type). Oracle: three-valued reference binder written from Swagger 2.0 semantics, cross-checked with go-openapi/validate on the parsed values. Listed known findings (boolean converter, byte bodies, lenient date-time, missing default consumer) are excluded by signature.",
+  note="Names are plain (identifier hostility is C01/C08's subject); cases the Swagger 2.0 text leaves open are 'unspecified' and assert nothing (listed in the evidence assumptions).",
+  tech="property-based testing (rapid): program generation + model-based testing of generated request binding against a reference binder"),
  "C18": dict(
   text="Randomised search (rapid) over model specs: spec -> generated models (binary built from the tree) -> codescan.Run over the generated package -> normalised, position-by-position comparison of every definition (names, types, formats, required, $ref / allOf structure, additionalProperties, readOnly, discriminator, every validation keyword). Thirteen root-cause classes of genuine losses are listed known findings; one defect was repaired.",
   note="References to anonymous types lifted by the generator are followed (naming of lifted types is not part of the property); defaults, examples, text and x-* extensions are ignored as the property allows.",
